@@ -21,7 +21,7 @@ FILES = ["helpers.py", "operations.py", "_operations.py", "BSpline.py", "NURBS.p
          "linalg.py", "_linalg.py", "fitting.py", "construct.py", "compatibility.py", "convert.py", "_convert.py", "control_points.py",
          "CPGen.py", "exchange.py", "_exchange.py", "tessellate.py", "_tessellate.py", "voxelize.py", "_voxelize.py", "ray.py",
          "multi.py", "sweeping.py", "utilities.py", "_utilities.py", "elements.py"]
-PROPS = ["C%02d" % i for i in range(1, 21)]
+PROPS = ["C%02d" % i for i in range(1, 21)] + ["X01"]
 SWAP = {"_u": "_v", "_v": "_u", "_w": "_v"}
 
 
